@@ -21,7 +21,8 @@ def isObj : Json → Bool
   | _ => false
 
 /-- `JSONRPCMessage.model_validate` on one JSON object: field types of the unified class,
-    then its `model_post_init` rule for responses -/
+    its `model_validate` override (error objects need `code` and `message`), then its
+    `model_post_init` rule for responses -/
 def validate (j : Json) : Option (Msg Json) := do
   -- jsonrpc: str (default "2.0"), null is not accepted
   match j.getObjVal? "jsonrpc" with
@@ -44,6 +45,10 @@ def validate (j : Json) : Option (Msg Json) := do
   let params ← objOrNone "params"
   let result ← objOrNone "result"
   let error ← objOrNone "error"
+  -- the class's `model_validate` override: an error object must have `code` and `message`
+  match error with
+  | some e => if (e.getObjVal? "code").toOption.isSome && (e.getObjVal? "message").toOption.isSome then pure () else failure
+  | none => pure ()
   match method, id with
   | some m, some i =>
     pure { kind := .request, id := some i,
